@@ -3,6 +3,7 @@
   (byte level: rollback of the writer; the WAL level — every VFS/MetaStore call as the failing one, further
   acknowledged appends, reopen — is carried by the fault suite's ghost-state monitors on the real code)
 -/
+import RaftWal.Proofs.SegmentChainFault
 import RaftWal.Proofs.SegmentFaults
 import RaftWal.Proofs.CrashCorollaries
 import RaftWal.Proofs.FaultProps
@@ -89,5 +90,34 @@ theorem fault_model_extends_crash_model (p : Fault.Proc) (hf : Fault.Fresh p) (o
 /-- the restart theorems as first stated (for the weaker invariant) are false: kept with their refutations -/
 theorem restart_needs_the_stronger_invariant : ¬ Fault.restart_total_stmt0 ∧ ¬ Fault.restart_view_stmt0 :=
   ⟨Fault.restart_total_refuted, Fault.restart_view_refuted⟩
+
+/-! ### chains with I/O faults: failed appends, whose bytes stay behind the tail (observation O21, a recorded finding)
+
+    `ChainEvF` adds `failed b fault` to the chain events: an append that fails on an injected write or fsync fault — the
+    call returns an error, the writer is rolled back in memory, the file keeps what landed. `chain_atomic_faults_stmt` says
+    of such chains what `chain_atomic` says of fault-free ones (every acknowledged batch present, anything else present is
+    one whole submitted batch — the pending failed one included, as C10 allows —, nothing partial, nothing fabricated,
+    modulo CRC-32C collisions). It is FALSE of the model, and of the code: -/
+
+/-- the witness, evaluated by the kernel: an acknowledged append, an append whose fsync fails and whose single payload
+    embeds an entry frame `[42]` and a commit frame with that frame's CRC-32C, a shorter acknowledged append, a restart —
+    three entries are recovered and index 7 reads `[42]`, which nobody stored. No CRC collision is involved. The same
+    input is replayed on the real code by the segment suite on every run (known finding O21). -/
+theorem failed_append_stale_bytes_fabricate_an_entry : type_of% RaftWal.faultW3_outcome :=
+  -- the statement (Proofs/SegmentChainFault.lean): `chainRunF faultInfo (freshSegment faultInfo) faultW3` is `.ok p` with
+  -- `p.1.offsets.length = 3` and `p.1.getLog p.2 7 64 = .ok [42]`
+  RaftWal.faultW3_outcome
+
+theorem chain_atomic_with_faults_refuted : ¬ chain_atomic_faults_stmt := RaftWal.chain_atomic_faults_false
+
+/-- what does hold (**partial**: fsync faults only, each failed append followed directly by a restart; `.write n` faults
+    and appends over the stale bytes of a failed one are exactly where the refutation lives): such a chain behaves as the
+    fault-free chain in which the failed batch was appended, and ends with a clean region behind the tail -/
+theorem chain_atomic_faults_partial (info : SegInfo) (evs : List ChainEvF) (l : List ChainEv)
+    (hp : plainOf evs = some l) (hwf : ChainWFF info evs) :
+    ChainCollision info l
+    ∨ ∃ w file bs, FaultResult info evs w file bs ∧ ChainResult info l w file bs
+        ∧ (∀ x ∈ file.drop w.writeOffset, x = 0) :=
+  RaftWal.chain_atomic_faults_partial info evs l hp hwf
 
 end RaftWal.C10
